@@ -208,6 +208,7 @@ type rpcServerSide struct {
 	enter   atomic.Int64
 	exit    atomic.Int64
 	blockCh chan struct{} // optional: handlers of behaviour bLate wait on it (fault checks)
+	resultsMade, resultsFreed atomic.Int64 // results handed to the library / released by it
 	subcalls atomic.Int64 // subservice calls seen in front of method calls
 	rereads atomic.Int64  // handlers that asked for the request a second time after streamed messages
 }
@@ -271,7 +272,21 @@ func (s *rpcServerSide) handle(ctx rpc.Context, ch rpc.ServerChannel) (ref.R[[]b
 		if b == nil {
 			return nil
 		}
-		return ref.NewFree(b, func() {})
+		// The result lives in a buffer of its own which is overwritten when the library releases
+		// it: a result released before it has been written out reaches the caller corrupted.
+		buf := append([]byte(nil), b...)
+		s.resultsMade.Add(1)
+		var freed atomic.Int32
+		return ref.NewFree(buf, func() {
+			if freed.Add(1) > 1 {
+				s.fail("the result of call %d was released %d times", c.id, freed.Load())
+				return
+			}
+			for i := range buf {
+				buf[i] = 0x5A
+			}
+			s.resultsFreed.Add(1)
+		})
 	}
 	switch c.behaviour {
 	case bAppCode, bStdCode:
